@@ -631,3 +631,179 @@ Proof.
   rewrite checked_accepts by exact Hq. f_equal. unfold q. rewrite map_to_nat_of_nat.
   apply inverse_restores; assumption.
 Qed.
+
+(* ------------------------------------------------------------------------------------------------ *)
+(** * same function: the tensor-product sum over a commutative semiring is invariant *)
+From Coq Require Import Ring_theory.
+
+Section SameFunction.
+Variable R : Type.
+Variables (rO rI : R) (radd rmul : R -> R -> R).
+Hypothesis Rth : semi_ring_theory rO rI radd rmul (@eq R).
+
+Definition rsum (l : list R) : R := fold_right radd rO l.
+Definition rprod (l : list R) : R := fold_right rmul rI l.
+
+Lemma rsum_Permutation : forall a b, Permutation a b -> rsum a = rsum b.
+Proof.
+  unfold rsum. induction 1; cbn [fold_right]; try congruence.
+  rewrite !(SRadd_assoc Rth). f_equal. apply (SRadd_comm Rth).
+Qed.
+
+Lemma rprod_Permutation : forall a b, Permutation a b -> rprod a = rprod b.
+Proof.
+  unfold rprod. induction 1; cbn [fold_right]; try congruence.
+  rewrite !(SRmul_assoc Rth). f_equal. apply (SRmul_comm Rth).
+Qed.
+
+(* sum over ALL stored coefficients of  c[pos] * prod_i b_i(digit_i pos) : the specification of evaluation (C01),
+   with b i k the value of the k-th basis function of axis i at the i-th coordinate *)
+Definition tensor_eval (n : nat) (sh : list Z) (co : list R) (b : nat -> Z -> R) : R :=
+  rsum (map (fun k => rmul (nth k co rO)
+                           (rprod (map (fun i => b i (nth i (unflat sh (Z.of_nat k)) 0)) (seq 0 n))))
+            (seq 0 (Z.to_nat (prod sh)))).
+
+Variables K E : Type.
+Variable t : table K E R.
+Hypothesis Hwf : wf_table t.
+Variable p : list nat.
+Hypothesis Hp : is_perm p (t_ndim t).
+Variable junk : R.
+Variable b : nat -> Z -> R.
+
+Lemma same_function :
+  let t' := permute junk t p in
+  tensor_eval (t_ndim t) (t_naxes t') (t_coeffs t') (fun i => b (nth i p 0%nat)) =
+  tensor_eval (t_ndim t) (t_naxes t) (t_coeffs t) b.
+Proof.
+  intros t'. unfold t', permute. rewrite body_naxes, body_coeffs by assumption.
+  pose proof (wf_naxes _ _ _ _ Hwf) as Hsh. pose proof (wf_pos _ _ _ _ Hwf) as Hpos. pose proof (wf_coeffs _ _ _ _ Hwf) as Hco.
+  set (n := t_ndim t) in *. set (sh := t_naxes t) in *. set (co := t_coeffs t) in *.
+  assert (is_perm p (length sh)) as Hp' by (rewrite Hsh; exact Hp).
+  unfold tensor_eval. rewrite (prod_pick p sh 1 Hp').
+  set (N := Z.to_nat (prod sh)).
+  set (new := relocate junk n (strides sh) sh (strides (pick p sh 1)) (inverse_perm n p) N co).
+  set (f := fun k : nat => Z.to_nat (npos n (strides sh) sh (strides (pick p sh 1)) (inverse_perm n p) (Z.of_nat k))).
+  rewrite <- (rsum_Permutation _ _ (Permutation_map _ (f_perm p sh n Hp Hsh Hpos))).
+  fold N. fold f. rewrite map_map. f_equal. apply map_ext_in. intros k Hk. apply in_seq in Hk.
+  assert (k < N)%nat as HkN by lia.
+  f_equal.
+  - unfold new, f, N in *. rewrite (relocate_nth R p sh n Hp Hsh Hpos junk co Hco k rO HkN). apply nth_indep. fold sh in Hco. lia.
+  - set (m := unflat sh (Z.of_nat k)).
+    assert (in_shape sh m) as Hm by (apply unflat_in_shape; exact Hpos).
+    pose proof (in_shape_pick p sh m Hp' Hm) as Hm'. pose proof (flat_bounds _ _ Hm') as Hb.
+    assert (Z.of_nat (f k) = flat (pick p sh 1) (pick p m 0)) as ->.
+    { unfold f. rewrite (f_eq p sh n Hp Hsh Hpos k HkN). fold m. lia. }
+    rewrite unflat_flat by exact Hm'.
+    rewrite <- (rprod_Permutation _ _ (Permutation_map (fun j => b j (nth j m 0)) Hp)).
+    rewrite (map_as_map_seq _ _ (fun j => b j (nth j m 0)) p 0%nat), (is_perm_length _ _ Hp).
+    f_equal. apply map_ext_in. intros i Hi. apply in_seq in Hi.
+    rewrite nth_pick by (rewrite (is_perm_length _ _ Hp); lia). reflexivity.
+Qed.
+
+End SameFunction.
+
+(* ------------------------------------------------------------------------------------------------ *)
+(** * the statements of Properties_C15.v *)
+Section Final.
+Variables K E C : Type.
+Variable t : table K E C.
+Hypothesis Hwf : wf_table t.
+Variable junk : C.
+
+(* --- rejection: exactly the non-permutations are rejected, the table is untouched, and the error is never the
+       "Missing index" of the third loop (which is dead code); no well-formedness needed --- *)
+Lemma thm_rejects : forall p, ~ is_permN p (t_ndim t) ->
+  exists e, permute_checked junk t p = (Some e, t) /\ e <> ErrMissing.
+Proof. exact (checked_rejects K E C t true junk). Qed.
+
+Lemma thm_accepts : forall p, is_permN p (t_ndim t) ->
+  permute_checked junk t p = (None, permute junk t (map N.to_nat p)).
+Proof. exact (checked_accepts K E C t true junk). Qed.
+
+Lemma thm_wrong_length_class : forall p, fst (permute_checked junk t p) = Some ErrLength <-> length p <> t_ndim t.
+Proof.
+  intros p. unfold permute_checked, permute_checked_gen. rewrite <- validate_length.
+  destruct (validate (t_ndim t) p); cbn [fst]; tauto.
+Qed.
+
+(* the C wrapper reads exactly ndim entries; return code 0 and the permuted table, or 1 and the table untouched *)
+Lemma thm_c_wrapper : forall p,
+  (is_permN (firstn (t_ndim t) p) (t_ndim t) -> c_permute junk t p = (0, permute junk t (map N.to_nat (firstn (t_ndim t) p)))) /\
+  (~ is_permN (firstn (t_ndim t) p) (t_ndim t) -> c_permute junk t p = (1, t)).
+Proof. exact (c_permute_spec K E C t junk). Qed.
+
+Variable p : list N.
+Hypothesis Hp : is_permN p (t_ndim t).
+Let pn := map N.to_nat p.
+Let t' := snd (permute_checked junk t p).
+
+(* --- the coefficient array holds exactly the original values, relocated: the value at multi-index m is found at
+       the permuted multi-index of the new shape (both positions inside the arrays); the new array is a
+       permutation of the old one; nothing of the uninitialised buffer survives --- *)
+Lemma thm_coeff_relocated : forall m, in_shape (t_naxes t) m ->
+  (Z.to_nat (flat (t_naxes t) m) < length (t_coeffs t))%nat /\
+  nth_error (t_coeffs t') (Z.to_nat (flat (t_naxes t') (pick pn m 0))) = nth_error (t_coeffs t) (Z.to_nat (flat (t_naxes t) m)).
+Proof.
+  intros m Hm. unfold t', permute_checked. rewrite (checked_accepts K E C t true junk p Hp). cbn [snd].
+  exact (coeff_relocated K E C t Hwf pn Hp junk m Hm).
+Qed.
+
+Lemma thm_coeff_permutation : Permutation (t_coeffs t) (t_coeffs t').
+Proof.
+  unfold t', permute_checked. rewrite (checked_accepts K E C t true junk p Hp). cbn [snd]. exact (coeff_Permutation K E C t Hwf pn Hp junk).
+Qed.
+
+Lemma thm_junk_irrelevant : forall junk2, permute_checked junk2 t p = permute_checked junk t p.
+Proof.
+  intros junk2. unfold permute_checked. rewrite !(checked_accepts K E C t true _ p Hp). f_equal.
+  exact (junk_irrelevant K E C t Hwf pn Hp true junk2 junk).
+Qed.
+
+(* --- every per-dimension attribute appears in the new order; strides are row-major for the new shape; the
+       result is again a well-formed table of the same dimension --- *)
+Lemma thm_attributes : forall i, (i < t_ndim t)%nat ->
+  nth_error (t_order t') i = nth_error (t_order t) (nth i pn 0%nat) /\
+  nth_error (t_nknots t') i = nth_error (t_nknots t) (nth i pn 0%nat) /\
+  nth_error (t_knots t') i = nth_error (t_knots t) (nth i pn 0%nat) /\
+  nth_error (t_extents t') i = nth_error (t_extents t) (nth i pn 0%nat) /\
+  nth_error (t_naxes t') i = nth_error (t_naxes t) (nth i pn 0%nat) /\
+  match t_periods t with
+  | None => t_periods t' = None
+  | Some l => exists l', t_periods t' = Some l' /\ length l' = t_ndim t /\ nth_error l' i = nth_error l (nth i pn 0%nat)
+  end.
+Proof.
+  intros i Hi. unfold t', permute_checked. rewrite (checked_accepts K E C t true junk p Hp). cbn [snd].
+  exact (attributes K E C t Hwf pn Hp junk i Hi).
+Qed.
+
+Lemma thm_shape : t_ndim t' = t_ndim t /\ t_strides t' = strides (t_naxes t') /\ wf_table t'.
+Proof.
+  unfold t', permute_checked. rewrite (checked_accepts K E C t true junk p Hp). cbn [snd].
+  pose proof (body_wf K E C t Hwf pn Hp true junk) as W.
+  split; [reflexivity|]. split; [apply (wf_strides _ _ _ _ W)|exact W].
+Qed.
+
+(* --- applying the inverse permutation restores a table EQUAL to the original (every member) --- *)
+Lemma thm_inverse :
+  permute_checked junk t' (map N.of_nat (inverse_perm (t_ndim t) pn)) = (None, t).
+Proof. exact (checked_inverse K E C t junk p Hwf Hp). Qed.
+
+(* the inverse vector is the one with q[p[k]] = k, and it is a permutation itself *)
+Lemma thm_inverse_vector : is_perm (inverse_perm (t_ndim t) pn) (t_ndim t) /\
+  forall k, (k < t_ndim t)%nat -> nth (nth k pn 0%nat) (inverse_perm (t_ndim t) pn) 0%nat = k.
+Proof. split; [apply inverse_perm_is_perm; exact Hp|apply inverse_perm_spec; exact Hp]. Qed.
+
+End Final.
+
+Lemma thm_same_function : forall (R : Type) (rO rI : R) (radd rmul : R -> R -> R),
+  semi_ring_theory rO rI radd rmul (@eq R) ->
+  forall (K E : Type) (t : table K E R), wf_table t -> forall p, is_permN p (t_ndim t) -> forall (junk : R) (B : nat -> Z -> R),
+  let t' := snd (permute_checked junk t p) in
+  tensor_eval R rO rI radd rmul (t_ndim t) (t_naxes t') (t_coeffs t') (fun i => B (nth i (map N.to_nat p) 0%nat)) =
+  tensor_eval R rO rI radd rmul (t_ndim t) (t_naxes t) (t_coeffs t) B.
+Proof.
+  intros R rO rI radd rmul Rth K E t Hwf p Hp junk B t'. unfold t', permute_checked.
+  rewrite (checked_accepts K E R t true junk p Hp). cbn [snd].
+  exact (same_function R rO rI radd rmul Rth K E t Hwf (map N.to_nat p) Hp junk B).
+Qed.
